@@ -15,7 +15,7 @@ import (
 func init() { register("C12", "exploration", checkC12) }
 
 func checkC12(c *hx.Ctx) {
-	c.Rule("(a) intake: update and recover requests for every pairing of revealed key K_i and next commitment c_h(K_j) (4 keys x 4 keys x reveal hash {sha2-256, sha2-512} x commitment hash {sha2-256, sha2-512} x protocols allowing [256], [512], [256,512], [512,256]) and creates/recovers with equal/unequal update and recovery commitments - exhaustive; keys carrying nonces: the same key material seen under one nonce, then revealed and re-committed under another nonce in the same process; accepted iff the next commitment is not a commitment of the revealed key (under any enabled algorithm) and update != recovery commitment; every decision is asked for again from the same parser (a second submission, and after the parser has served the resolution-side entry points for the same bytes) and must not change; every request intake must refuse is also handed to the batch writer's REAL operation handler (the last gate before anchoring), which must not write batch files for it; the same requests with an anchoring window that has not opened yet (parser with a server-time validator) stay refused; (b) resolution: commitment cycles of length 1-5 (every rotation, every anchoring order of up to 5 operations, for the update and the recovery chain) (also with a legitimate later competitor of the cycle-closing operation, with a protocol upgrade in the middle of the chain, and recovery cycles built from / closed by recovers that carry no delta) under the online trace checker T3 (no commitment consumed twice, no successor already consumed) with step budget, compared with the reference model; cycles resolved on ONE processor that serves other resolutions at the same time (nested before every operation application, and from goroutines); non-trivial = pairing i==j or a history containing a full cycle")
+	c.Rule("(a) intake: update and recover requests for every pairing of revealed key K_i and next commitment c_h(K_j) (4 keys x 4 keys x reveal hash {sha2-256, sha2-512} x commitment hash {sha2-256, sha2-512} x protocols allowing [256], [512], [256,512], [512,256]) and creates/recovers with equal/unequal update and recovery commitments - exhaustive; keys carrying nonces: the same key material seen under one nonce, then revealed and re-committed under another nonce in the same process; accepted iff the next commitment is not a commitment of the revealed key (under any enabled algorithm) and update != recovery commitment; every decision is asked for again from the same parser (a second submission, and after the parser has served the resolution-side entry points for the same bytes) and must not change; every request intake must refuse is also handed to the batch writer's REAL operation handler (the last gate before anchoring), which must not write batch files for it; the same requests with an anchoring window that has not opened yet (parser with a server-time validator) stay refused; (b) resolution: commitment cycles of length 1-5 (every rotation, every anchoring order of up to 5 operations, for the update and the recovery chain) (also with a legitimate later competitor of the cycle-closing operation, with a protocol upgrade in the middle of the chain, and recovery cycles built from / closed by recovers that carry no delta, and rings whose last operation commits to another base64url spelling of the first, consumed commitment - a dead end, not a way back) under the online trace checker T3 (no commitment consumed twice, no successor already consumed) with step budget, compared with the reference model; cycles resolved on ONE processor that serves other resolutions at the same time (nested before every operation application, and from goroutines); non-trivial = pairing i==j or a history containing a full cycle")
 	c.Set("exhaustive", true)
 	rng := c.Rng("keys")
 	typeSets := [][]string{{"P-256", "Ed25519", "secp256k1", "P-384"}}
